@@ -203,9 +203,9 @@ func (p *StreamPool) getConnection(k key, end bool, ts time.Time, tcp *layers.TC
 	conn, half, rev = p.newConnection(k, s, ts)
 	conn2, half2, rev2 := p.getHalf(k)
 	if conn2 != nil {
-		if conn2.key != k {
-			panic("FIXME: other dir added in the meantime...")
-		}
+		// Another assembler added the connection in the meantime, either for
+		// this direction or (conn2.key == k.Reverse()) for the other one;
+		// getHalf has already ordered half2/rev2 for k in both cases.
 		// FIXME: delete s ?
 		return conn2, half2, rev2
 	}
